@@ -294,6 +294,70 @@ theorem qname_ctor_iff_lexical (s : List Char) :
     Lex.matchQName qnamePFirst qnamePLater qnameFirst qnameLater (Lex.pyStrip s) = XSD.qNameLex (XSD.wsCollapse s) :=
   (names_ctor_iff_lexical_of_tables name_tables_agree s).2.2.2
 
+/-! ### the namespace of an xs:QName cast from a string -/
+
+/-- an accepted lexical QName has no white space left after `strip`, so `strip` and `collapse` coincide on it -/
+theorem strip_eq_collapse_of_qname (s : List Char)
+    (h : Lex.matchQName qnamePFirst qnamePLater qnameFirst qnameLater (Lex.pyStrip s) = true) :
+    Lex.pyStrip s = XSD.wsCollapse s := by
+  rw [← collapse_eq_wsCollapse_all]
+  rcases pyStrip_or_white s with e | ⟨hw, _⟩
+  · exact e
+  · rw [matchQName_rejects_white _ hw] at h; cases h
+
+/-- **cast xs:string → xs:QName, the value**: `AbstractQName.make` under a parser whose prefix map is the statically known
+namespaces `known` plus the entry `'' ↦ default_namespace` produces, for every string, exactly the expanded QName of
+F&O / XPath: the prefix resolved in the statically known namespaces, **an unprefixed name in the default element/type
+namespace**, an error otherwise (prefixes are bound to non-empty URIs). -/
+theorem qname_make_eq_spec (known : List (List Char × List Char)) (dflt s : List Char)
+    (hk : ∀ e ∈ known, e.1 ≠ [] ∧ e.2 ≠ []) :
+    (match Lex.qnameMake (Lex.matchQName qnamePFirst qnamePLater qnameFirst qnameLater) (([], dflt) :: known) s with
+      | .ok r => some r | .error _ => none) = XSD.castToQName known dflt s := by
+  have hl := qname_ctor_iff_lexical s
+  unfold Lex.qnameMake XSD.castToQName
+  simp only []
+  cases hL : Lex.matchQName qnamePFirst qnamePLater qnameFirst qnameLater (Lex.pyStrip s) with
+  | false =>
+    rw [hL] at hl
+    rw [← hl]
+    simp only [Bool.not_false, if_true]
+    split
+    · rename_i heq
+      split at heq <;> cases heq
+    · rfl
+  | true =>
+    have hc := strip_eq_collapse_of_qname s hL
+    rw [hL] at hl
+    rw [← hl, ← hc]
+    simp only [Bool.not_true, Bool.false_eq_true, if_false]
+    generalize Lex.pyStrip s = c at hL
+    by_cases hcol : c.contains ':' = true
+    · simp only [hcol, if_true, Bool.and_true]
+      have hpre : c.takeWhile (· != ':') ≠ [] := by
+        intro e
+        unfold Lex.matchQName at hL
+        rw [if_pos hcol, e] at hL
+        simp [Lex.matchNameLike] at hL
+      have hfind : Lex.lookupNs (([], dflt) :: known) (c.takeWhile (· != ':')) =
+          (known.find? (·.1 == c.takeWhile (· != ':'))).map (·.2) := by
+        unfold Lex.lookupNs
+        rw [List.find?_cons_of_neg]
+        simp only [beq_iff_eq]
+        exact fun e => hpre e.symm
+      rw [hfind]
+      cases hf : known.find? (·.1 == c.takeWhile (· != ':')) with
+      | none => rfl
+      | some e =>
+        have hne := (hk e (List.mem_of_find?_eq_some hf)).2
+        have : e.2.isEmpty = false := by
+          cases h2 : e.2 with
+          | nil => exact absurd h2 hne
+          | cons _ _ => rfl
+        simp only [Option.map_some, this, Bool.false_eq_true, if_false]
+    · have hcol' : c.contains ':' = false := by simpa using hcol
+      simp only [hcol', Bool.false_eq_true, if_false, Bool.and_false]
+      rfl
+
 /-- tests on literals -/
 example : classifiedAlike ncnameFirst ncnameLater XSD.nameStartNoColon XSD.nameCharNoColon "a-b.c_1".toList = true ∧
     Lex.nameCtor ncnameFirst ncnameLater " a-b.c_1\n".toList = some "a-b.c_1".toList ∧
